@@ -25,7 +25,7 @@ MCCanon == <<"t", "r", "e">>
 MCItemsOf == [t |-> <<1, 2, 3>>, r |-> <<1, 2>>, e |-> <<1, 2>>]
 MCRootOf == [t |-> "t", r |-> "r", e |-> "e"]
 \* interval lengths 2, 2, 2 (model 1) / 1, 1, 1 (model 2) / 1, 2, 2 .. see TimeGrid: midpoints, ends mirrored
-MCGrid == CASE ModelId = 1 -> <<2000, 2001, 2004>> [] ModelId = 2 -> <<1990, 1991, 1992>> [] OTHER -> <<2000, 2002, 2004>>
+MCGrid == CASE ModelId \in {1, 4} -> <<2000, 2001, 2004>> [] ModelId = 2 -> <<1990, 1991, 1992>> [] OTHER -> <<2000, 2002, 2004>>
 
 VARIABLES st, hist
 vars == <<st, hist>>
@@ -76,8 +76,22 @@ M3 == [procs |-> <<"sysenv", "A">>,
                    [op |-> "flow", id |-> 2, e |-> Sout(1)],
                    [op |-> "sin", id |-> 2, e |-> F(2)],
                    [op |-> "scompute", id |-> 2, e |-> P(1)] >>]
-M == CASE ModelId = 1 -> M1 [] ModelId = 2 -> M2 [] OTHER -> M3
-Conserving == ModelId \in {1, 3}
+\* 4  conserving: a STOCK-DRIVEN dynamic stock prescribed by the cumulated demand; what upstream does not deliver comes from the
+\*    environment; the outflow is written item by item (flows[f][{r: item}] = outflow[{r: item}])
+M4 == [procs |-> <<"sysenv", "A">>,
+       params |-> << [name |-> "src", dims |-> <<"t", "r">>], [name |-> "dem", dims |-> <<"r", "t">>] >>,
+       flows |-> << [name |-> "sysenv => A", from |-> 1, to |-> 2, dims |-> <<"t", "r">>],
+                    [name |-> "sysenv => A #2", from |-> 1, to |-> 2, dims |-> <<"r", "t">>],
+                    [name |-> "A => sysenv", from |-> 2, to |-> 1, dims |-> <<"r", "t">>] >>,
+       stocks |-> << [name |-> "stock1", proc |-> 2, dims |-> <<"t", "r">>, kind |-> "sdsm", setting |-> "end", solver |-> "manual"] >>,
+       prog |-> << [op |-> "flow", id |-> 1, e |-> P(1)],
+                   [op |-> "slev", id |-> 1, e |-> [op |-> "cumsum", a |-> P(2), l |-> "t"]],
+                   [op |-> "scompute", id |-> 1, e |-> P(1)],
+                   [op |-> "flow", id |-> 2, e |-> Bin("sub", Sin(1), F(1))],
+                   [op |-> "flowkey", id |-> 3, key |-> << <<"r", 1>> >>, e |-> [op |-> "get", a |-> Sout(1), key |-> << <<"r", 1>> >>, sp |-> "letter"]],
+                   [op |-> "flowkey", id |-> 3, key |-> << <<"r", 2>> >>, e |-> [op |-> "get", a |-> Sout(1), key |-> << <<"r", 2>> >>, sp |-> "name"]] >>]
+M == CASE ModelId = 1 -> M1 [] ModelId = 2 -> M2 [] ModelId = 3 -> M3 [] OTHER -> M4
+Conserving == ModelId \in {1, 3, 4}
 
 \* initial parameter values: small integers depending on the labels (no symmetry between items)
 Prm0 == [p \in DOMAIN M.params |->
@@ -92,7 +106,7 @@ PosSet(ds) == IF Rich THEN {1, LastPos(ds)} ELSE {LastPos(ds)}
 ParamVals == IF Rich THEN {<<0, 1>>, <<3, 2>>} ELSE {<<3, 2>>}
 FlowVals == {<<-1, 4>>, RNaN}
 LifeVals == IF Rich THEN {4, 36} ELSE {4}
-DsmStocks == {s \in DOMAIN M.stocks : M.stocks[s].kind = "dsm"}
+DsmStocks == {s \in DOMAIN M.stocks : M.stocks[s].kind \in {"dsm", "sdsm"}}
 
 Ev(op, id, pos, val, s2) ==
     [op |-> op, id |-> id, pos |-> pos, val |-> val,
@@ -129,6 +143,9 @@ Prop_Lifecycle ==
     /\ WellFormedFrom(M, st, 1)
     /\ MirrorLaw(M, st)
     /\ ComputeForgets(M, st)
+    \* an assignment conserves the total of its source (summed by label, nothing dropped or counted twice)
+    /\ \A f \in DOMAIN M.flows, p \in DOMAIN M.params :
+          Assignable(M.flows[f].dims, st.prm[p]) => ATotal(Assigned(M.flows[f].dims, st.prm[p])) = ATotal(st.prm[p])
     \* right after compute(): a conserving program is balanced at every process for ALL parameter values and lifetimes reached,
     \* every computed stock conserves mass, no flow is flagged for NaN (all inputs are numbers)
     /\ Computed => /\ Conserving => Failing(M, st, "strict") = {}
